@@ -506,6 +506,11 @@ fn run_op(cx: &mut Ctx, spec: OpSpec, body: impl FnOnce(&mut Ctx) -> Out) -> Out
                 if m.capacity() < m.len() {
                     vio("C04", format!("capacity {} < len {} after [{}]", m.capacity(), m.len(), spec.toks));
                 }
+                // everything ends up in the main table: a capacity() beyond what that table can hold
+                // promises insertions that need another allocation
+                if m.capacity() > st.main_cap {
+                    vio("C04", format!("capacity() {} but the main table can hold {} (len {}, {} still in the old table) after [{}]", m.capacity(), st.main_cap, m.len(), st.old.map_or(0, |o| o.0), spec.toks));
+                }
                 if m.len() != st.main_len + st.old.map_or(0, |o| o.0) {
                     vio("C01", format!("len() {} != {} + {}", m.len(), st.main_len, st.old.map_or(0, |o| o.0)));
                 }
@@ -1590,6 +1595,7 @@ fn op_entry(cx: &mut Ctx, s: usize, k: u64, steps: Vec<Step>, fuse: Option<u64>)
     let spec = OpSpec { toks, kind: "entry", slots: vec![s], pslot: if fuse.is_some() { Some(s) } else { None }, fuse, key_adding: adding && !removing, readonly: !adding, key: Some(k) };
     let key = K::new(k, kid);
     let steps_copy = steps.clone();
+    let stored_kid: Option<u64> = cx.refs[s].as_ref().and_then(|r| r.get(&k).map(|e| e.0));
     let out = run_op(cx, spec, move |cx| {
         // the map is borrowed by the entry: take it out of the context while the chain runs
         let mut map = cx.maps[s].take().unwrap();
@@ -1739,6 +1745,16 @@ fn op_entry(cx: &mut Ctx, s: usize, k: u64, steps: Vec<Step>, fuse: Option<u64>)
             Err(p) => std::panic::resume_unwind(p),
         }
     });
+    // key() of an occupied handle names the key object stored in the map, not the one looked up with
+    if cx.monitors && fuse.is_none() && !cx.poisoned[s] && matches!(steps_copy.first(), Some(Step::Key)) {
+        if let (Some(want), Out::S(obs)) = (stored_kid, &out) {
+            if let Some(Out::N(got)) = obs.first() {
+                if *got != want {
+                    vio("C12", format!("OccupiedEntry::key() names key object {} but the map stores key object {} for key {}", got, want, k));
+                }
+            }
+        }
+    }
     resync_ref_checked(cx, s, k, &out, &steps_copy);
     out
 }
